@@ -259,10 +259,43 @@ def comm_def(fi, e):
 SIZE_FORMS = ['len(_X)', '_X.shape[_I]', '_X.size', 'int(len(_X))', 'int(_X.shape[_I])']
 
 
-def helper_roles(mod):
+def comm_call(fi, e):
+    """The committors(...) call that e IS: the call itself, or a Name whose
+    single definition is directly that call."""
+    if isinstance(e, ast.Call) and (call_name(e) or '').split('.')[-1] == 'committors':
+        return e
+    return comm_def(fi, e)
+
+
+def set_origin(fi, a):
+    return {p for p in fi.derives_from(a)[0] if not p.startswith('<free>')}
+
+
+def comm_orientation(fi, call, cpar, sources, sinks):
+    """'forward' if the call's source/sink slots derive from the (sources,
+    sinks) parameters in that order, 'reverse' if from (sinks, sources), else
+    None."""
+    b = bind_args(call, cpar)
+    if b is None or cpar[1] not in b or cpar[2] not in b:
+        return None
+    o1, o2 = set_origin(fi, b[cpar[1]]), set_origin(fi, b[cpar[2]])
+    if o1 == {sources} and o2 == {sinks}:
+        return 'forward'
+    if o1 == {sinks} and o2 == {sources}:
+        return 'reverse'
+    return None
+
+
+def helper_roles(mod, cpar=('tprob', 'sources', 'sinks')):
     """Which position of the tuple returned by _get_data_from_tprob holds the
     populations / the number of states / q+ / q-, decided from what each
-    element IS (def-use), not from its name.  -> (roles, None) | (None, why)"""
+    element IS (def-use), not from its name.  -> (roles, None) | (None, why)
+
+    q+ is the element bound directly to a committors(...) call.  When TWO
+    elements are such calls (q- computed by a committor solve of its own
+    instead of 1 - q+), the one whose source/sink slots are fed from (sources,
+    sinks) in that order is q+ and the other one q-; two calls of the same
+    orientation leave the roles undecided."""
     fn = mod.func(HELPER)
     fi = finfo(mod, fn)
     P = params(fn)
@@ -273,10 +306,22 @@ def helper_roles(mod):
     if len(r) != 1 or not isinstance(r[0].value, ast.Tuple) or len(r[0].value.elts) != 4:
         return None, '%s does not end in a single `return <pi>, <n>, <q+>, <q->`' % HELPER
     elts = r[0].value.elts
+    direct = [i for i, e in enumerate(elts) if comm_def(fi, e) is not None]
+    second = set()              # committors calls that play the role of q-
+    if len(direct) == 2:
+        ori = {i: comm_orientation(fi, comm_def(fi, elts[i]), list(cpar), P[1], P[2]) for i in direct}
+        fwd = [i for i in direct if ori[i] == 'forward']
+        rev = [i for i in direct if ori[i] == 'reverse']
+        if len(fwd) == 1:
+            second = set(direct) - set(fwd)
+        elif len(rev) == 1 and not fwd:
+            second = set(rev)
     cand = {'pi': [], 'n': [], 'qf': [], 'qb': []}
     for i, e in enumerate(elts):
         ex, _ = expand_info(fi, e)
-        if comm_def(fi, e) is not None:
+        if i in second:
+            cand['qb'].append(i)
+        elif comm_def(fi, e) is not None:
             cand['qf'].append(i)
         elif match_any(SIZE_FORMS, ex) is not None:
             cand['n'].append(i)
@@ -954,12 +999,16 @@ def d3_helper(ck, mod, roles, why):
                       'the %s handed to committors must be the caller\'s %s (flattened), not another function of them' % (mine, mine))
     # --- q- = 1 - q+
     Q = qfe.id
-    tree, leaf = expand_info(fi, qbe)
-    v = classify(tree, ['1 - %s' % Q, '1.0 - %s' % Q, '-%s + 1' % Q, '-%s + 1.0' % Q, 'np.subtract(1, %s)' % Q, 'np.ones_like(%s) - %s' % (Q, Q)], scope={Q})
-    if v[0] == 'match' and any(d != fi.defs_of_use(qfe) for d in leaf.get(Q, ())):
-        v = ('far', 0, None)
-    ck.decide(v, rule, mod, def_stmt(fi, qbe), HELPER, 'q- = %s' % u(tree)[:160], 'q- = 1 - q+ (equilibrium)',
-              'backward committor must be 1 - forward committor (of the same committors call)')
+    bcall = comm_call(fi, qbe)
+    if bcall is not None and bcall is not call:
+        d3_backward_call(ck, mod, fi, bcall, qbe, cpar, tprob, sources, sinks)
+    else:
+        tree, leaf = expand_info(fi, qbe)
+        v = classify(tree, ['1 - %s' % Q, '1.0 - %s' % Q, '-%s + 1' % Q, '-%s + 1.0' % Q, 'np.subtract(1, %s)' % Q, 'np.ones_like(%s) - %s' % (Q, Q)], scope={Q})
+        if v[0] == 'match' and any(d != fi.defs_of_use(qfe) for d in leaf.get(Q, ())):
+            v = ('far', 0, None)
+        ck.decide(v, rule, mod, def_stmt(fi, qbe), HELPER, 'q- = %s' % u(tree)[:160], 'q- = 1 - q+ (equilibrium)',
+                  'backward committor must be 1 - forward committor (of the same committors call)')
     # --- n = len(pi)
     tree, leaf = expand_info(fi, ne)
     P = pie.id
@@ -968,6 +1017,67 @@ def d3_helper(ck, mod, roles, why):
         v = ('far', 0, None)
     ck.decide(v, 'C08.D3.n-states', mod, def_stmt(fi, ne), HELPER, 'n = %s' % u(tree)[:120], 'number of states = length of the populations', 'n_states must be the number of states (len(populations))')
     d3_populations(ck, mod, fn, fi, pie, tprob, pops)
+
+
+def same_matrix_forms(T):
+    """Spellings of "the matrix T itself" (same entries; container or storage
+    format may differ)."""
+    return [T, '%s.copy()' % T, 'copy.copy(%s)' % T, 'copy.deepcopy(%s)' % T, '%s.T.T' % T, '%s.transpose().transpose()' % T] + \
+        ['%s.%s()' % (T, m) for m in sorted(CONVERSIONS - {'copy'})]
+
+
+# coercions whose result depends on the container kind of the operand (a
+# scipy.sparse matrix becomes a 0-d object array): not "another function of T"
+COERCIONS = ['np.asarray(_X)', 'np.asanyarray(_X)', 'np.asarray(_X, dtype=_T)', 'np.array(_X, dtype=_T)', 'np.asarray(_X, _T)',
+             '_X.toarray()', '_X.todense()', '_X.A', '_X.astype(_T)']
+
+
+def d3_backward_call(ck, mod, fi, bcall, qbe, cpar, tprob, sources, sinks):
+    """q- obtained from a committor solve of its own.  For every chain in
+    which sources U sinks is reached with probability one, the committor of
+    the SAME transition matrix for the reaction sinks -> sources is exactly
+    1 - q+ (each trajectory is absorbed in one of the two sets); that is the
+    only call that is the backward committor of a reversible chain.  The
+    backward committor proper belongs to the time-reversed chain
+    diag(1/pi) T^T diag(pi), which is T itself under detailed balance: a call
+    on another function of T alone (T^T, T@T, ...) solves a different chain."""
+    rule = 'C08.D3.committors'
+    st = def_stmt(fi, qbe)
+    b = bind_args(bcall, cpar)
+    if b is None or len(b) != 3:
+        ck.missing(rule, 'arguments of the second committor solve %s cannot be bound to committors(%s)' % (u(bcall)[:100], ', '.join(cpar)))
+        return
+    construct = 'q- = %s' % u(bcall)[:160]
+    # the chain
+    tree, leaf = expand_info(fi, b[cpar[0]])
+    v = classify(tree, same_matrix_forms(tprob), scope={tprob})
+    if v[0] == 'match' and leaf.get(tprob) != {frozenset(['PARAM'])}:
+        v = ('far', 0, None)
+    if v[0] == 'near' and match_any(COERCIONS, tree) is not None:
+        v = ('far', v[1], v[2])
+    ck.decide(v, rule, mod, st, HELPER, construct, 'backward committor solved on the same chain as q+',
+              'the backward committor of a reversible chain is 1 - q+, i.e. the committor of the SAME transition matrix for the reaction '
+              'sinks -> sources; `%s` is solved on `%s`, a different chain: the time reversal of T is diag(1/pi) T^T diag(pi) (= T under detailed '
+              'balance), not another function of T alone - with non-uniform populations the result is not 1 - q+ and the flux is no longer '
+              'conserved' % (u(bcall)[:100], u(tree)[:60]))
+    # the reaction: sinks -> sources
+    for slot, mine, other in ((cpar[1], sinks, sources), (cpar[2], sources, sinks)):
+        a = b[slot]
+        origin = set_origin(fi, a)
+        if origin == {other}:
+            ck.bad(rule, mod, st, HELPER, construct, 'a committor solve that yields the backward committor must be the one of the reversed reaction, '
+                   'committors(%s, %s, %s): `%s` is handed the %s, so q- repeats q+ instead of 1 - q+' % (tprob, sinks, sources, slot, other))
+            continue
+        if origin != {mine}:
+            ck.missing(rule, 'argument %s=%s of the second committor solve does not derive from `%s` alone' % (slot, u(a)[:80], mine))
+            continue
+        tree, leaf = expand_info(fi, a)
+        v = classify(tree, index_set_forms(mine), scope={mine})
+        if v[0] == 'match' and leaf.get(mine) != {frozenset(['PARAM'])}:
+            v = ('far', 0, None)
+        ck.decide(v, rule, mod, st, HELPER, '%s: %s=%s' % (construct[:120], slot, u(tree)[:60]),
+                  'q- = committors(T, sinks, sources) = 1 - q+ (every trajectory is absorbed in the sources or in the sinks)',
+                  'the %s handed to the reversed committor solve must be the caller\'s %s (flattened), not another function of them' % (mine, mine))
 
 
 def d3_populations(ck, mod, fn, fi, pie, tprob, pops):
@@ -1398,7 +1508,11 @@ def d3_hidden_state(ck, mods):
 def check(ck):
     mod = ck.repo.mod(TP)
     d3_hidden_state(ck, [mod, ck.repo.mod(CO)])
-    roles, why = helper_roles(mod)
+    try:
+        cpar = params(ck.repo.mod(CO).func('committors'))[:3]
+    except Exception:
+        cpar = []
+    roles, why = helper_roles(mod, cpar if len(cpar) == 3 else ('tprob', 'sources', 'sinks'))
     d1_fluxes(ck, mod, roles)
     d2_net(ck, mod)
     d2_containers(ck, mod)
